@@ -43,6 +43,8 @@ def gen_hist(rng, length: int) -> str:
             else:
                 ps.append((name, f"T{rng.randrange(n_alias)}:{rng.choice(['0', '0', '0', '0', '1', '1', '1', '4', '5', '7'] + (['2', '3', '6'] if rng.random() < 0.15 else []))}"))
         ret = "-" if rng.random() < 0.6 else f"T{rng.randrange(n_alias)}:{rng.choice(['0', '1'])}"
+        if ret != "-" and rng.random() < 0.25:
+            ret = "(" + "+".join(f"T{rng.randrange(n_alias)}:0" for _ in range(rng.randint(1, 2))) + ")"
         same = [g for g, v in funcs.items() if [n for n, _ in v["ps"]] == [n for n, _ in ps]]
         nested = rng.choice(same + [fid]) if (rng.random() < 0.2) else "-"
         funcs[fid] = {"ps": ps, "ret": ret, "pid": pid}
